@@ -191,6 +191,11 @@ class Opaque:
         return f"<opaque {self.what}>"
 
 
+def _is_static(fn):
+    return any(ast.unparse(d) == "staticmethod"
+               for d in getattr(fn, "decorator_list", ()))
+
+
 class Closure:
     def __init__(self, fn, env):
         self.fn, self.env = fn, env
@@ -765,6 +770,8 @@ class Interp:
                     if r[0] == "prop":
                         return self.call_function(r[1], [base],
                                                   dict(self.globals))
+                    if _is_static(r[1]):
+                        return Closure(r[1], dict(self.globals))
                     return Bound(r[1], base, dict(self.globals))
                 raise Raised(e)
             if isinstance(base, (dict, list, set, frozenset, str, tuple)) and \
@@ -862,6 +869,13 @@ class Interp:
         if isinstance(op, (ast.Is, ast.IsNot)):
             r = a is b if not isinstance(a, (int, str)) else a == b
             return r if isinstance(op, ast.Is) else not r
+        if isinstance(op, (ast.In, ast.NotIn)) and isinstance(a, Poly) and \
+                isinstance(b, (dict, set, frozenset, list, tuple)):
+            # membership of a normal form in a container: equality of normal
+            # forms is equality of the values
+            r = any(isinstance(x, (Poly, int, Fraction)) and not isinstance(
+                x, bool) and Poly.lift(x) == a for x in b)
+            return r if isinstance(op, ast.In) else not r
         sym = any(isinstance(x, (Poly, Mon, Opaque)) for x in (a, b))
         if sym:
             if isinstance(a, (Poly, int, Fraction)) and isinstance(
@@ -906,8 +920,9 @@ class Interp:
                 r = self.method(base, e.func.attr)
                 if r is None:
                     raise AnalysisError(f"method {fname} not found")
-                return self.call_function(r[1], [base] + args,
-                                          dict(self.globals))
+                recv = [] if _is_static(r[1]) else [base]
+                return self.call_function(r[1], recv + args,
+                                          dict(self.globals, __kwargs__=kw))
             if isinstance(base, str) and e.func.attr in (
                     "count", "startswith", "endswith", "join", "format",
                     "replace", "strip", "split", "lower", "upper"):
@@ -926,11 +941,14 @@ class Interp:
                     "append", "pop", "extend", "sort", "insert"):
                 if e.func.attr == "sort":
                     k = kw.get("key")
+                    rv_ = kw.get("reverse", False)
+                    if not isinstance(rv_, (bool, int)):
+                        raise AnalysisError("sort(reverse=<symbolic>)")
                     if isinstance(k, Closure):
                         base.sort(key=lambda v_: self.call_function(
-                            k.fn, [v_], k.env))
+                            k.fn, [v_], k.env), reverse=bool(rv_))
                     elif k is None:
-                        base.sort()
+                        base.sort(reverse=bool(rv_))
                     else:
                         raise AnalysisError("sort key")
                     return None
@@ -973,6 +991,36 @@ class Interp:
             return {"sorted": sorted, "min": min, "max": max}[fname](
                 args[0], key=lambda v_: self.call_function(k.fn, [v_], k.env))
         if fname in _BUILTINS:
+            def host(v):
+                # interpreted functions handed to a builtin (reduce, map, key=)
+                if isinstance(v, Closure):
+                    return lambda *a, **k: self.call_function(
+                        v.fn, list(a), dict(v.env, __kwargs__=dict(k)))
+                if isinstance(v, Bound):
+                    return lambda *a, **k: self.call_function(
+                        v.fn, [v.obj] + list(a), dict(v.env, __kwargs__=dict(k)))
+                return v
+            args = [host(a) for a in args]
+            kw = {k_: host(v) for k_, v in kw.items()}
+            if fname in ("map", "filter"):
+                f0 = args[0]
+                if isinstance(f0, Opaque):
+                    nm_ = f0.what.split(" ")[-1]
+                    if f0.what.split(" ")[0] in ("function", "class") and \
+                            nm_ in _BUILTINS:
+                        f0 = _BUILTINS[nm_]
+                    elif f0.what == "class str":
+                        f0 = str
+                    else:
+                        raise AnalysisError(f"{fname}({f0!r}, ...)")
+                elif f0 is None and fname == "filter":
+                    f0 = bool
+                if not callable(f0):
+                    raise AnalysisError(f"{fname}({f0!r}, ...)")
+                its = [list(x) for x in args[1:]]
+                if fname == "map":
+                    return [f0(*xs) for xs in zip(*its)]
+                return [x for x in its[0] if self.truth(e, f0(x))]
             try:
                 return _BUILTINS[fname](*args, **kw)
             except TypeError:
@@ -1072,7 +1120,7 @@ _BUILTINS = {
     "tuple": lambda x=(): tuple(x), "list": lambda x=(): list(x),
     "set": lambda x=(): set(x), "frozenset": lambda x=(): frozenset(x),
     "dict": lambda x=(): dict(x), "any": any, "all": all, "sum": sum,
-    "bin": bin, "next": next, "iter": iter,
+    "bin": bin, "next": next, "iter": iter, "map": map, "filter": filter,
     "reduce": __import__("functools").reduce,
     "int": lambda x: x if isinstance(x, (int, Poly)) and not isinstance(
         x, bool) else int(x),
